@@ -186,6 +186,23 @@ def _case(repo, it, S, spec):
     if texts[0] != texts[1]:
         diff = [(a, b) for a, b in zip(texts[0], texts[1]) if a != b][:1]
         out.append((f"reproducible for a fixed seed{' (seed 0)' if seed == 0 else ''}", f"{desc}: two exports with random_seed={seed} differ: {diff}", f.qual))
+    if seed is not None:
+        # the same with the generated defaults (no locus-tag prefix, no lab name given): everything random in the file comes
+        # after the seed, whatever state the process-wide generator was left in
+        dtexts = []
+        for rep in range(2):
+            it.overrides["random"] = SeededRandom()
+            handle = []
+            k, v = run(it, f, [[ac], handle], dict(translation_table=it.enum("TranslationTable")[table],
+                                                   genbank_flavor=it.enum("GenbankFlavor")[flavor], random_seed=seed), None)
+            if k != "ok":
+                out.append(("export with default names", f"{desc}: collection_to_tbl without prefix / lab name raises {v}", f.qual))
+                break
+            dtexts.append(list(handle))
+        if len(dtexts) == 2 and dtexts[0] != dtexts[1]:
+            diff = [(a, b) for a, b in zip(dtexts[0], dtexts[1]) if a != b][:1]
+            out.append((f"reproducible for a fixed seed with generated names{' (seed 0)' if seed == 0 else ''}",
+                        f"{desc}: two exports with random_seed={seed} and no locus_tag_prefix / submitter_lab_name differ: {diff}", f.qual))
     lines = texts[0]
     if not lines or lines[0] != ">Features chr1":
         out.append(("header", f"{desc}: first line {lines[:1]}; expected '>Features chr1'", f.qual))
